@@ -50,8 +50,9 @@ def guards_dominating(fn, bb, want_types=None):
         for (sw, t_true, t_false) in bool_branches(fn, g.dest[0]):
             if edge_dominates(fn, (sw, t_false), bb) and bb not in fn.reachable(t_true, avoid_edges=[(sw, t_false)]) \
                     or (edge_dominates(fn, (sw, t_false), bb) and t_true != t_false):
-                if bb in fn.reachable(t_true):
-                    # reachable from the skip edge as well (rejoins): not a guard for this site
+                if bb in fn.reachable(t_true, avoid_blocks=[g.bb]):
+                    # reachable from the skip edge without re-evaluating the guard (the paths rejoin): not a guard for
+                    # this site.  (`if skip { continue }` in a loop re-enters through the guard: that is fine.)
                     continue
                 out.append((g, sw, t_true))
     return out
@@ -183,6 +184,8 @@ def run(ctx):
                         short(f.id), short(bad[0].name)), [g.loc(), "%s:%d" % (f.file, bad[0].line)])
     r.floor("R04-a2", n2, 10, "skip edges explored")
 
+    import c13
+    c13.skipped_modules_not_resolved(ctx, "R04-e")
     spelling(ctx, "R04-b")
     whole_file(ctx, "R04-c")
     scoping(ctx, "R04-d")
